@@ -16,7 +16,7 @@ pub fn def() -> CheckDef {
         level: "fault_enumeration",
         cases: |t| match t {
             Tier::Quick => 24,
-            Tier::Thorough => 1_200,
+            Tier::Thorough => 600,
         },
         gen,
         run,
@@ -193,6 +193,9 @@ pub fn run(case: &Case, _known: &BTreeSet<String>) -> Outcome {
     let mut accepted = 0u64;
     'outer: for (desc, kind, img) in &sel {
         // accepted by permissive open?
+        let mut marker = Case::new("C11", "single-image", case.version);
+        marker.params.insert("seed".into(), case.param("seed", 1));
+        crate::subcase::set(&marker, img);
         let disk = SimDisk::new(img.clone());
         disk.0.borrow_mut().budget = 1_000_000 + 200 * (img.len() as u64 / 64);
         let mut lib = match Lib::open(disk, false, bufsize) {
@@ -212,6 +215,8 @@ pub fn run(case: &Case, _known: &BTreeSet<String>) -> Outcome {
             if !full && !rng.chance(1, 12) {
                 continue;
             }
+            marker.ops = ops.clone();
+            crate::subcase::set(&marker, img);
             let (v, k) = run_ops_on(img, ops, bufsize);
             o.stats.sub_runs += 1;
             o.stats.boundary_checks += 1;
@@ -227,6 +232,8 @@ pub fn run(case: &Case, _known: &BTreeSet<String>) -> Outcome {
             for _ in 0..rng.range(2, 6) {
                 hist.extend(lists[rng.usize_below(lists.len() - 3)].iter().cloned());
             }
+            marker.ops = hist.clone();
+            crate::subcase::set(&marker, img);
             let (v, k) = run_ops_on(img, &hist, bufsize);
             o.stats.sub_runs += 1;
             o.stats.seam_events += k;
